@@ -67,7 +67,60 @@ pub fn generate(rng: &mut Rng, seed: u64, run: u64, max_len: usize) -> Trace {
         let (starts, map) = run_layout(&wl.bytes);
         gen_faults(rng, map.len(), &starts, true)
     };
-    Trace { prop: "C06".into(), surface: surface.into(), input: wl.bytes, ops, faults, params: vec![], seed, run }
+    let mut params = Vec::new();
+    if rng.chance(1, 2) {
+        // a client that does not give up after a failed `write`: an error means nothing of the
+        // buffer was consumed, so it resubmits the same buffer, whatever the error kind
+        params.push(("resilient_client".to_string(), 1));
+    }
+    if rng.chance(1, 6) {
+        // a second, independent strip stream is fed between the calls of this one
+        params.push(("twin_stream".to_string(), 1));
+    }
+    Trace { prop: "C06".into(), surface: surface.into(), input: wl.bytes, ops, faults, params, seed, run }
+}
+
+/// What the twin stream is fed (in irregular pieces, between the calls on the stream under test):
+/// escape-rich, with sequences, strings and multi-byte characters for the pieces to end in.
+const TWIN_INPUT: &str = "\x1b[1;31mred\x1b[0m \x1b]0;title\x07plain \u{20ac}\u{1f600} \x1b[38;5;196mX\x1b[m\x1bPq#payload\x1b\\tail\n\x1b_apc\x1b\\ \x1b(B\u{e9}nd ";
+
+struct Twin {
+    stream: anstream::StripStream<Vec<u8>>,
+    fed: usize,
+    steps: usize,
+}
+
+impl Twin {
+    fn step(&mut self) {
+        let b = TWIN_INPUT.as_bytes();
+        let k = 1 + (self.steps * 7 + self.steps / 3) % 6;
+        self.steps += 1;
+        let from = self.fed % b.len();
+        let to = (from + k).min(b.len());
+        let _ = self.stream.write_all(&b[from..to]);
+        self.fed += to - from;
+    }
+
+    /// Everything fed so far, stripped one-shot by a stream of its own, must be what the twin holds.
+    fn verify(self) -> Option<Violation> {
+        let b = TWIN_INPUT.as_bytes();
+        let mut whole = Vec::new();
+        let mut left = self.fed;
+        while left > 0 {
+            let n = left.min(b.len());
+            whole.extend_from_slice(&b[..n]);
+            left -= n;
+        }
+        let want = strip_bytes(&whole).into_vec();
+        let got = self.stream.into_inner();
+        if got != want {
+            return viol(
+                "twin-corrupted",
+                format!("a second, independent StripStream<Vec<u8>> fed {:?} in pieces between the calls of the stream under test holds {:?}, expected {:?}", lossy(&whole), lossy(&got), lossy(&want)),
+            );
+        }
+        None
+    }
 }
 
 fn viol(class: &str, detail: String) -> Option<Violation> {
@@ -105,6 +158,8 @@ struct Client<'a> {
     /// strict invariant checked on every `stride`-th successful call (long-lived histories)
     stride: usize,
     since_check: usize,
+    resilient: bool,
+    twin: Option<Twin>,
 }
 
 impl Client<'_> {
@@ -273,9 +328,13 @@ impl Client<'_> {
                 if !raised.contains(k) {
                     return Err(viol("spurious-error", format!("{what}: the inner writer raised {raised:?}, not {k:?}")).unwrap());
                 }
-                let soft = matches!(k, io::ErrorKind::Interrupted | io::ErrorKind::WouldBlock);
-                // an error means nothing of this buffer was consumed; for a retryable error the
-                // client will resubmit the same buffer, so the accounting must still be exact
+                let soft = matches!(k, io::ErrorKind::Interrupted | io::ErrorKind::WouldBlock) || self.resilient;
+                // an error means nothing of this buffer was consumed; for a retryable error (and
+                // for any error, with a client that does not give up) the client will resubmit
+                // the same buffer, so the accounting must still be exact
+                if self.resilient && !matches!(k, io::ErrorKind::Interrupted | io::ErrorKind::WouldBlock) {
+                    self.st.probe("history_continued_after_hard_write_error");
+                }
                 if let Some(v) = self.check_invariants(soft, &what) {
                     return Err(v);
                 }
@@ -376,6 +435,9 @@ impl Client<'_> {
         let n = self.t.input.len();
         let mut stopped = false;
         for op in &self.t.ops {
+            if let Some(tw) = self.twin.as_mut() {
+                tw.step();
+            }
             match self.step(sut, op) {
                 Err(v) => return Some(v),
                 Ok(true) => {
@@ -460,6 +522,8 @@ pub fn execute(t: &Trace, stats: &mut Stats, record: bool) -> Outcome {
         last_was_refusal: false,
         stride: check_stride(t.ops.len()),
         since_check: 0,
+        resilient: t.param("resilient_client") == Some(1),
+        twin: if t.param("twin_stream") == Some(1) { Some(Twin { stream: anstream::StripStream::new(Vec::new()), fed: 0, steps: 0 }) } else { None },
     };
     client.hash.str(&t.surface);
     if t.faults.is_empty() {
@@ -533,6 +597,13 @@ pub fn execute(t: &Trace, stats: &mut Stats, record: bool) -> Outcome {
     };
 
     let mut violation = violation;
+    if let Some(tw) = client.twin.take() {
+        client.st.probe("twin_stream_interleaved");
+        let tv = tw.verify();
+        if violation.is_none() {
+            violation = tv;
+        }
+    }
     if violation.is_none() && !control_after_incomplete_char(&t.input) {
         // absolute, model-free: whatever the input and the faults, no ESC, DEL or non-whitespace C0
         // byte may reach the inner writer (the differential oracles above cannot see a leak that
